@@ -105,6 +105,7 @@ def gen_scenario(seed, index, faulty):
         scen["fault"] = {"at": at, "kind": kind, "frac": rng.random(),
                          "exc": rng.choice(["interrupt", "memory"]) if kind == "crash"
                          else rng.choice(["runtime", "type", "key", "interrupt"])}
+    scen["ghost"] = rng.random() < 0.3
     return scen
 
 
@@ -139,9 +140,40 @@ def resolve_fault(scen):
         f["n"] = cnt
 
 
+def ghost_spec(spec):
+    """The same world with other inheritance relations between its (same-named) classes."""
+    g = json.loads(json.dumps(spec))
+    cl = g["classes"]
+    chain = all(c[1] == ([cl[i - 1][0]] if i else []) for i, c in enumerate(cl))
+    for i, c in enumerate(cl):
+        c[1] = [] if (chain or i == 0) else [cl[i - 1][0]]
+    g["virtual"] = []
+    return g
+
+
+def run_ghost(scen):
+    """Address reuse: a world with other class relations lives and dies right before the world under
+    test is created; the allocator then hands the same addresses to the new classes, functions and
+    tables. Anything the library remembers by identity of dead objects now names live ones."""
+    import gc
+
+    begin_run()
+    try:
+        gh = Harness(ghost_spec(scen["spec"]), scen["regs"])
+        for c in scen["history"]:
+            if "flood" not in c:
+                gh.w.call("f", {k: v for k, v in c.items() if k != "on"})
+        del gh
+    except Exception:  # noqa: BLE001  (a relation change can make a method set invalid: still a ghost)
+        pass
+    gc.collect()
+
+
 def execute(scen):
     sort_errors_first(scen)
     resolve_fault(scen)
+    if scen.get("ghost"):
+        run_ghost(scen)
     begin_run()
     spec, regs = scen["spec"], scen["regs"]
     h = Harness(spec, regs)
